@@ -240,6 +240,23 @@ theorem C11_bridge_encode (n c p : Nat) (m : Option Nat) (i : Nat)
       splitStart (numChunks n c m) (min p (numChunks n c m)) (i+1) := by omega
   rw [e]
 
+/-- the same for `core.chunk_aligned_slices` (PLINK): its list, written with the regenerated pieces -/
+theorem C11_bridge_slices (rows c n : Nat) (m : Option Nat) (i : Nat)
+    (hn : 0 < rows) (hc : 0 < c) (hp : 0 < n) (hm : ∀ x, m = some x → 0 < x)
+    (h : i < (chunkAlignedSlices rows c n m).length) :
+    let k := match m with
+      | none => Gen.slNumChunks rows c
+      | some x => Gen.slCap (Gen.slNumChunks rows c) x
+    let s := Gen.slSplits n k
+    (chunkAlignedSlices rows c n m)[i] =
+      (Gen.slStart (splitStart k s i) (splitStart k s (i+1) - 1) c rows,
+       Gen.slStop (splitStart k s i) (splitStart k s (i+1) - 1) c rows) := by
+  obtain ⟨a1, b1, a3, b3, a5, b5, a7, b7, a9, b9⟩ := C11_bridge_pieces
+  have e := C11_bridge_encode rows c n m i hn hc hp hm (by rw [← chunkAlignedSlices_eq]; exact h)
+  simp only [a1, a3, a5, a7, a9] at e
+  simp only [b1, b3, b5, b7, b9, chunkAlignedSlices_eq]
+  exact e
+
 /-- non-vacuity: 10 records, chunk size 3, 3 partitions asked → [(0,6),(6,9),(9,10)] -/
 example : genPartitions 10 3 3 none = [(0, 6), (6, 9), (9, 10)] := by decide
 example : genPartitionsE 0 3 3 none = none := by decide
